@@ -1,6 +1,6 @@
 SPECIFICATION Spec
 CONSTANTS
-  Elevs = {1, 2, 3, 4}
+  Elevs = {0, 1, 2, 255}
   MaxLen = 8
   Azs = {1, 2, 3}
   MaxSide = 3
